@@ -17,11 +17,12 @@ from . import rules_c11
 
 LEVEL = "other"
 MANIFEST = {
-    "text": "decides coverage (every run-time-writable member of the object is inside a wiped range on "
-            "every path of each free / clear / destructor obligation, null-argument paths exempt), that the "
-            "wiping sink really wipes (ascon_clean reaches explicit_bzero / a volatile loop over the whole "
-            "range; ascon_free reaches ascon_clean(state, 40) in every back end) and that the wipes survive "
-            "in the -O3 IR; the claim is at LLVM-IR level",
+    "text": "decides D1 coverage (every secret-capable member of the object is inside a wiped range on every path "
+            "of each free / clear / destructor obligation), D2 that the wiping sink really wipes (ascon_clean "
+            "reaches explicit_bzero / a volatile loop over the whole range; ascon_free reaches it for the whole "
+            "state) and D3 that state objects living on the stack of a library function (the one-shot functions) "
+            "are wiped by a non-elidable primitive before every return on which they were written; checked at -O0 "
+            "and, in the thorough tier, on the -O3 IR; the claim is at LLVM-IR level",
     "note": "trusted: clang -O3 as a model of the shipped optimiser (the release build uses the system cc), "
             "libc explicit_bzero, irdump; padding bytes are outside the claim; members never written with "
             "run-time data anywhere in the library are exempt (computed)",
